@@ -265,7 +265,64 @@ func main() {
 	stCode.Labels, stTail.Labels = codeLabels, tailLabels
 	ctx.RunStream(stCode, codeLines, codeImpl)
 	ctx.RunStream(stTail, tailLines, tailImpl)
+	// a pass no longer does what its model does: look for an OBSERVABLE difference around the
+	// programs on which they differ (a misplaced stack slot only shows in some contexts)
+	var suspects []string
+	for _, d := range stCode.Dis {
+		suspects = append(suspects, codeLabels[d.Idx])
+	}
+	for _, d := range stTail.Dis {
+		suspects = append(suspects, tailLabels[d.Idx])
+	}
+	if len(suspects) > 0 {
+		directedSearch(ctx, suspects, all)
+	}
 	ctx.Finish()
+}
+
+// directedSearch wraps each suspect program in contexts that expose the value stack and the
+// fork stack, and compares the fully optimised code with the unoptimised code on every input.
+func directedSearch(ctx *common.Ctx, suspects []string, all uint) {
+	orc := ctx.NewOracle("directed-differential", "only when an optimisation pass disagrees with its model: each program on which they disagree is wrapped in 16 contexts (operand of a binary operator, array/object member, object key, binding, reduce source, try, limit …) and run on every input with all rewrites on and all off; distinct = wrapped programs run")
+	wraps := []string{"%s", "(%s) + 5", "5 + (%s)", "[%s]", "{a: (%s)}", "{(%s | tojson): 1}", "[(%s), 2]", "[2, (%s)]", "(%s) as $q | [$q]", "[.[]? | (%s)]", "(%s) | [.]", "first(%s)", "[limit(2; %s)]", "try (%s) catch .", "reduce (%s) as $q (0; . + 1)", "[(%s) == (%s)]"}
+	seen := map[string]bool{}
+	found := 0
+	for i, p := range suspects {
+		if i >= 80 || found >= 10 {
+			break
+		}
+		for _, w := range wraps {
+			src := strings.ReplaceAll(w, "%s", p)
+			if seen[src] {
+				continue
+			}
+			seen[src] = true
+			q, err := gojq.Parse(src)
+			if err != nil {
+				continue
+			}
+			on, err1 := compileMask(q, 0)
+			off, err2 := compileMask(q, all)
+			if err1 != nil || err2 != nil {
+				continue
+			}
+			for _, in := range inputs {
+				a := common.RunCode(on, common.DeepCopy(in), budget, maxOuts)
+				b := common.RunCode(off, common.DeepCopy(in), budget*4, maxOuts)
+				orc.Cases++
+				if a.Budget || b.Budget {
+					continue
+				}
+				if a.Panic != "" || common.CanonOutcome(a) != common.CanonOutcome(b) {
+					found++
+					ctx.Violate("opt-differs:all-off:"+src+":"+common.Canon(in), fmt.Sprintf("with all rewrites off the program %s on %s gives %s, fully optimised it gives %s", src, common.Canon(in), clip(common.CanonOutcome(b)), clip(common.CanonOutcome(a)+a.Panic)),
+						map[string]any{"query": src, "input": common.Canon(in), "optimised": common.CanonOutcome(a), "unoptimised": common.CanonOutcome(b), "note": "rebuild with -tags verif and set gojq.VerifOptMask to reproduce"})
+					break
+				}
+			}
+		}
+	}
+	orc.Distinct = len(seen)
 }
 
 // isAssignPathText: both end with an error after the same outputs and one message is the other
